@@ -124,6 +124,12 @@ impl CodeCache {
       let (next_op, length, _cycles) = decode(code_slice);
       index += length;
       block_ended = next_op.is_block_end();
+      if ip < 0x4000 && index >= 0x4000 {
+        // A block in the fixed bank ends at the boundary: whatever follows is
+        // in the switchable bank, and may be different code the next time
+        // this cached translation runs
+        block_ended = true;
+      }
       let translated = self.exec_memory.get_memory_area_mut();
       let written = emitter.encode_op(next_op, length, &mut translated[write_cursor..]);
       write_cursor += written;
